@@ -176,7 +176,7 @@ def term_key(e):
         return None
     s = e[2]
     if s[0] == "scalar" and s[1]:
-        return "scalar:%s" % s[1]
+        return "scalar:%s" % ("|".join(s[1]) if isinstance(s[1], tuple) else s[1])
     if s[0] == "opaque" and isinstance(s[1], str) and (s[1].startswith("reg:") or "#" in s[1]):
         return s[1]
     if s[0] == "const" and s[1] is not None:
